@@ -347,6 +347,23 @@ def ob_skeleton():
                 v = l4.ld(ex, v)
                 if not (z3.eq(W2F.to_fe(v.f[0]).t, xP) and z3.eq(W2F.to_fe(v.f[1]).t, yP)):
                     raise Inconclusive("a line function is evaluated at something not recognised as the affine form of P")
+            g1 = [((PX, PY, PZ), 1)]      # G1 points the pairing derives from P, as multiples of P
+            def g1_ident(v):
+                v = l4.ld(ex, v)
+                co = tuple(z3.simplify(W2F.to_fe(x).t) for x in v.f)
+                for c2, k in g1:
+                    if all(z3.eq(a, b) for a, b in zip(co, c2)):
+                        return k
+                raise Inconclusive("a G1 point whose derivation from P is not recognised")
+            def g1_reg(k):
+                co = tuple(z3.Real("G1_%d%s" % (len(g1), a)) for a in "XYZ")
+                g1.append((co, k))
+                return Agg([fe(t) for t in co], name="Point")
+            def g1_affine(e_, a):
+                k = g1_ident(a[0])
+                if k != 1:
+                    raise Violation("the lines are evaluated at [%d]P instead of P: the value is e(P,Q)^%d" % (k, k))
+                return Agg([fe(xP), fe(yP), fe(1)], name="Point")
             def put_line(lwref, desc):
                 n = len(lines)
                 lines.append(desc)
@@ -371,7 +388,9 @@ def ob_skeleton():
                 return reg(add(A, B))
             s = line_world(ex)
             s.update({"sm9_u256_eval_g_tangent": tangent, "sm9_u256_eval_g_line": lambda e_, a: chord(e_, a, True), "sm9_u256_eval_g_line_no_pre": lambda e_, a: chord(e_, a, False),
-                      "Point::to_affine_point": lambda e_, a: Agg([fe(xP), fe(yP), fe(1)], name="Point"),
+                      "Point::to_affine_point": g1_affine, "Point::point_double": lambda e_, a: g1_reg(2 * g1_ident(a[0])),
+                      "Point::point_neg": lambda e_, a: g1_reg(-g1_ident(a[0])),
+                      "Point::point_add": lambda e_, a: g1_reg(g1_ident(a[0]) + g1_ident(a[1])), "Point::point_sub": lambda e_, a: g1_reg(g1_ident(a[0]) - g1_ident(a[1])),
                       "TwistPoint::point_pi1": lambda e_, a: (ident(a[0]), reg((0, 1, 0)))[1] if ident(a[0])[0] == (1, 0, 0) else None,
                       "TwistPoint::point_neg_pi2": lambda e_, a: (ident(a[0]), reg((0, 0, 1)))[1] if ident(a[0])[0] == (1, 0, 0) else None,
                       "<Fp12 as FieldElement>::one": lambda e_, a: l4.G(0),
